@@ -51,15 +51,27 @@ C40_SelectExact(sessions, q, specs, err, out) ==
 C40_CreationOrder(out) == \A i \in 1..(Len(out) - 1) : TimeLeq(out[i], out[i + 1])
 
 \* ---------------------------------------------------------------- selection after a history (SelectionHistory.tla)
-\* sessions: every session ever created, with alive = its session file still exists and no Terminate
-\* disabled it; queries are judged against the live ones only
-RECURSIVE LiveOf(_)
-LiveOf(ss) == IF ss = <<>> THEN <<>> ELSE (IF Head(ss).alive THEN <<Head(ss)>> ELSE <<>>) \o LiveOf(Tail(ss))
+\* sessions: every session ever created, with what an outside observer can tell afterwards:
+\*   file, archive : its session file / archive still exist on disk
+\*   sabotaged     : the driver itself removed the session file before a Terminate call
+\* gone  : a terminating halt succeeded for it - both files are gone and the driver did not remove them;
+\*         it must never be listed, selected by label or matched by a specification;
+\* limbo : the driver removed its file and a failing Terminate may or may not have reached it - the manager
+\*         may keep it or not (either outcome is accepted);
+\* live  : everything else - it must be listed / selected / matched exactly.
+Gone(s) == ~s.file /\ ~s.archive /\ ~s.sabotaged
+Limbo(s) == s.sabotaged
+LiveIdx(ss) == {i \in DOMAIN ss : ~Gone(ss[i]) /\ ~Limbo(ss[i])}
+LimboIdx(ss) == {i \in DOMAIN ss : Limbo(ss[i])}
+RECURSIVE Pick(_, _, _)
+Pick(ss, I, i) == IF i > Len(ss) THEN <<>> ELSE (IF i \in I THEN <<ss[i]>> ELSE <<>>) \o Pick(ss, I, i + 1)
+\* one registry content (the live sessions plus some of the limbo ones) explains every answer
 C40_ExactSelection(sessions, queries) ==
-  \A k \in DOMAIN queries :
-    LET qr == queries[k] IN
-    /\ C40_SelectExact(LiveOf(sessions), qr.q, qr.specs, qr.err, qr.out)
-    /\ C40_CreationOrder(qr.out)
+  \E X \in SUBSET LimboIdx(sessions) :
+    LET reg == Pick(sessions, LiveIdx(sessions) \cup X, 1) IN
+    \A k \in DOMAIN queries :
+      /\ C40_SelectExact(reg, queries[k].q, queries[k].specs, queries[k].err, queries[k].out)
+      /\ C40_CreationOrder(queries[k].out)
 
 \* ---------------------------------------------------------------- depth-first path order
 \* component names of the bound in byte order: '-' < '.' < '/' < '0'
